@@ -25,7 +25,65 @@ fn c17_limit(dl: L) -> u64 {
 
 fn exec(c: &Case, limit: u64) -> Outs {
     let (pair, op, a, b) = (c.lay2 as usize, c.op, c.a, c.b);
+    // history: calls made before the judged one (their results are not judged here; each of them is a case of its own
+    // elsewhere). A function of the crate is pure: what it returns must not depend on what was called before.
+    for &(packed, pa, pb) in &c.prog {
+        let (pop, ppair) = (packed & 15, (packed >> 4) as usize);
+        if ppair < NPAIRS && accepts(pair_info(ppair).2, pop) {
+            let _ = drive(&mut |st, outs| math_ops::run(st, ppair, pop, pa, pb, SOFT_LIMIT, outs));
+        }
+    }
     drive(&mut |st, outs| math_ops::run(st, pair, op, a, b, limit, outs))
+}
+
+/// calls to make before the judged call `(op, pair, a, b)`: the same raw operand bits in another type pair of the same
+/// source width (state keyed by raw bits), the same call twice, a sibling function on the same operand, the same function
+/// on a neighbouring operand
+fn history(op: u16, pair: u16, a: u128, b: u128, h: u32) -> Vec<(u16, u128, u128)> {
+    if h % 5 != 0 {
+        return Vec::new();
+    }
+    let h = h / 5;
+    let (sl, _, _) = pair_info(pair as usize);
+    let pack = |o: u16, p: u16| o | (p << 4);
+    let mut v = Vec::new();
+    let other_pair = |o: u16, sel: u32| -> Option<u16> {
+        let ps: Vec<u16> = pairs_for(o).into_iter().filter(|p| *p != pair && pair_info(*p as usize).0.w == sl.w).collect();
+        if ps.is_empty() { None } else { Some(ps[sel as usize % ps.len()]) }
+    };
+    match h % 4 {
+        0 => {
+            if let Some(p2) = other_pair(op, h >> 2) {
+                v.push((pack(op, p2), a, b));
+            }
+        }
+        1 => v.push((pack(op, pair), a, b)),
+        2 => {
+            let sib = match op {
+                LOG2 => LN,
+                LN => LOG2,
+                EXP => POW,
+                POW => LN,
+                SIN => COS,
+                COS => TAN,
+                TAN => SIN,
+                o => o,
+            };
+            if accepts(pair_info(pair as usize).2, sib) {
+                v.push((pack(sib, pair), a, b));
+            }
+            if let Some(p2) = other_pair(sib, h >> 2) {
+                v.push((pack(sib, p2), a, b));
+            }
+        }
+        _ => {
+            v.push((pack(op, pair), a ^ (1u128 << ((h >> 2) % sl.w.min(24))), b));
+            if let Some(p2) = other_pair(op, h >> 7) {
+                v.push((pack(op, p2), a, b));
+            }
+        }
+    }
+    v
 }
 
 fn funs_of(prop: &str) -> &'static [u16] {
@@ -589,9 +647,17 @@ impl Engine for Math {
         vec!["C12", "C13", "C14", "C15", "C16", "C17"]
     }
     fn op_name(&self, _prop: &str, op: u16) -> String {
-        OP_NAMES[op as usize].to_string()
+        // a history step packs (function, type pair): "log2@17"
+        if op >= 16 {
+            return format!("{}@{}", OP_NAMES[(op & 15) as usize % OP_NAMES.len()], op >> 4);
+        }
+        OP_NAMES[op as usize % OP_NAMES.len()].to_string()
     }
     fn op_from_name(&self, _prop: &str, s: &str) -> Option<u16> {
+        if let Some((f, p)) = s.split_once('@') {
+            let o = OP_NAMES.iter().position(|n| *n == f)? as u16;
+            return Some(o | (p.parse::<u16>().ok()? << 4));
+        }
         OP_NAMES.iter().position(|n| *n == s).map(|i| i as u16)
     }
     fn lay_is_layout(&self, _prop: &str) -> bool {
@@ -600,8 +666,8 @@ impl Engine for Math {
     fn strategy(&self, prop: &str, stratum: Option<u16>) -> BoxedStrategy<Case> {
         let funs = funs_of(prop);
         let prop = prop.to_string();
-        (pick(funs.len()), pick(64), pick(48), ing(), ing(), any::<u128>(), any::<u128>())
-            .prop_map(move |(fi, pi, mode, ia, ib, r1, r2)| {
+        (pick(funs.len()), pick(64), pick(48), ing(), ing(), any::<u128>(), any::<u128>(), any::<u32>())
+            .prop_map(move |(fi, pi, mode, ia, ib, r1, r2, hist)| {
                 let op = funs[fi];
                 let ps = pairs_for(op);
                 let pair = match stratum {
@@ -611,7 +677,9 @@ impl Engine for Math {
                 let (sl, dl, _) = pair_info(pair as usize);
                 let m = if op == POW || op == POWI { mode } else if matches!(op, SQRT | LOG2 | LN) { mode % 10 } else { mode % 8 };
                 let (a, b) = operands(&prop, op, sl, dl, m, ia, ib, r1, r2);
-                Case { op, lay: sl.idx() as u16, lay2: pair, a, b, ..Case::default() }
+                // powi is linear in |n|: no second call of it
+                let prog = if op == POWI { Vec::new() } else { history(op, pair, a, b, hist) };
+                Case { op, lay: sl.idx() as u16, lay2: pair, a, b, prog, ..Case::default() }
             })
             .boxed()
     }
@@ -685,6 +753,22 @@ impl Engine for Math {
             _ => vec![],
         }
     }
+    fn echo(&self, _prop: &str, c: &Case) -> Option<Case> {
+        if c.op == POWI {
+            return None;
+        }
+        let (sl, _, _) = pair_info(c.lay2 as usize);
+        let ps: Vec<u16> = pairs_for(c.op).into_iter().filter(|p| *p != c.lay2 && pair_info(*p as usize).0.w == sl.w).collect();
+        if ps.is_empty() {
+            return None;
+        }
+        let p2 = ps[(c.a as u64 ^ (c.b as u64).rotate_left(17)) as usize % ps.len()];
+        let mut s = c.clone();
+        s.lay2 = p2;
+        s.lay = pair_info(p2 as usize).0.idx() as u16;
+        s.prog.clear();
+        Some(s)
+    }
     fn eval(&self, prop: &str, c: &Case, chk: bool, kf: &Kf) -> Eval {
         let mut ev = Eval::default();
         let pair = c.lay2 as usize;
@@ -719,6 +803,9 @@ impl Engine for Math {
             _ => 0,
         };
         ev.note = format!("result={} iters={}", res.show(), iters);
+        if !c.prog.is_empty() {
+            ev.class("history(other calls made before the judged call)");
+        }
         let mut fail = |ev: &mut Eval, label: &str, got: &Out, want: String| {
             if let Some(id) = kf::matches(kf, prop, c, label, got, chk) {
                 if !ev.known.contains(&id) {
@@ -1306,7 +1393,7 @@ fn isqrt(n: &Big) -> Big {
 }
 
 pub fn main_entry() {
-    std::process::exit(vcore::run::main_with(&Math, lay::is_chk()));
+    std::process::exit(vcore::run::main_with2(&Math, lay::is_chk(), lay::is_oc()));
 }
 
 /// Builds a well-formed case from raw fuzzer-chosen numbers (used by the coverage-guided target).
